@@ -1142,7 +1142,26 @@ pub fn program_output(h: &History) -> String {
                     _ => false,
                 };
                 if !chatter {
-                    out.push_str(text);
+                    if *origin == Origin::RunLoop {
+                        // the run loop's own headings ("Output of line 9 : ...") may carry numbers
+                        // that belong to the program variant, not to its behaviour (an instruction
+                        // index, say): which line is cited is C16's business; here every run of
+                        // digits counts as one '#'
+                        let mut prev_digit = false;
+                        for ch in text.chars() {
+                            if ch.is_ascii_digit() {
+                                if !prev_digit {
+                                    out.push('#');
+                                }
+                                prev_digit = true;
+                            } else {
+                                out.push(ch);
+                                prev_digit = false;
+                            }
+                        }
+                    } else {
+                        out.push_str(text);
+                    }
                 }
             }
         }
